@@ -6,7 +6,7 @@ import (
 	"os"
 	"strings"
 
-	"verifharness/internal/h"
+	"verifharness/pkg/h"
 	"verifharness/verifsched"
 
 	"github.com/dunglas/mercure"
